@@ -6,6 +6,7 @@ package varmq
 
 import (
 	"fmt"
+	"os"
 	"sort"
 	"strconv"
 	"strings"
@@ -23,6 +24,7 @@ type mon struct {
 	dequeueAt  map[int]int // job object id -> log position of the Dequeue that handed the job to the dispatcher
 	concAt     []sample    // (t, "conc", value)
 	status     []sample    // worker status stores (t, value)
+	qframes    map[int][]int
 }
 
 func (m *mon) add(prop, kind, format string, a ...any) {
@@ -49,6 +51,11 @@ func siteExpr(id int) string { return siteTab[id].Expr }
 func runMonitors(f family, e *env, s *vt.Sched) []violation {
 	m := &mon{e: e, s: s, props: map[string]bool{}, dispatchAt: map[int]int{}, dequeueAt: map[int]int{}}
 	for _, p := range f.props {
+		m.props[p] = true
+	}
+	// the property being checked is judged on every family its check runs (VERIF_PROP), except on
+	// the families whose scenarios overlap control calls (only their own list applies)
+	if p := os.Getenv("VERIF_PROP"); p != "" && f.name != "apimix" && f.name != "ctlrace" {
 		m.props[p] = true
 	}
 	m.derive()
@@ -673,10 +680,94 @@ func (m *mon) c16() {
 }
 
 // C17 — counts in bounds (sampled), exact at rest (final samples)
+// c17len: every Len() of a built-in queue read while no other operation on that queue was in
+// progress (none running when Len was entered, none started before it returned) must equal the
+// number of elements the queue holds: accepted - handed out - purged. Judged on every history,
+// finished or not.
+func (m *mon) c17len() {
+	qobj := map[string]int{} // queue id -> inner queue object
+	content := map[int]int{}
+	busy := map[int]int{}
+	epoch := map[int]int{}
+	type snap struct{ obj, content, busy, epoch int }
+	snaps := map[int]snap{} // thread -> state when it entered Len
+	isQ := map[int]bool{}
+	reported := map[int]bool{}
+	for i, ev := range m.s.Log {
+		switch ev.Kind {
+		case "q:new":
+			qobj[ev.Val] = ev.Obj
+			isQ[ev.Obj] = true
+		case "enter":
+			fn := siteFunc(ev.Site)
+			if !isQ[ev.Obj] || !(strings.HasPrefix(fn, "Queue.") || strings.HasPrefix(fn, "PriorityQueue.")) {
+				m.inQ(ev.Tid, 0, +1)
+				continue
+			}
+			if strings.HasSuffix(fn, ".Len") {
+				snaps[ev.Tid] = snap{ev.Obj, content[ev.Obj], busy[ev.Obj], epoch[ev.Obj]}
+				m.inQ(ev.Tid, 0, +1)
+			} else {
+				busy[ev.Obj]++
+				epoch[ev.Obj]++
+				m.inQ(ev.Tid, ev.Obj, +1)
+			}
+		case "leave":
+			if o := m.inQ(ev.Tid, 0, -1); o != 0 {
+				busy[o]--
+			}
+		case "q:enq":
+			f := strings.Fields(ev.Val)
+			if len(f) == 2 && f[0] == "1" {
+				content[qobj[f[1]]]++
+			}
+		case "q:deq":
+			content[qobj[ev.Val]]--
+		case "q:purged":
+			content[qobj[ev.Val]]--
+		case "q:len":
+			f := strings.Fields(ev.Val)
+			if len(f) != 2 {
+				continue
+			}
+			o := qobj[f[0]]
+			n, _ := strconv.Atoi(f[1])
+			sn, ok := snaps[ev.Tid]
+			if !ok || sn.obj != o || sn.busy != 0 || sn.epoch != epoch[o] || reported[o] {
+				continue
+			}
+			if n != sn.content {
+				reported[o] = true
+				m.add("C17", "len-inexact", "q%s.Len() = %d at t=%d with no operation on the queue in progress; it holds %d elements", f[0], n, i, sn.content)
+			}
+		}
+	}
+}
+
+// inQ keeps, per thread, its stack of method frames: the queue object for a (non-Len) method of a
+// built-in queue, 0 for any other frame; d=+1 pushes, d=-1 pops and returns what was popped.
+func (m *mon) inQ(t, obj, d int) int {
+	if m.qframes == nil {
+		m.qframes = map[int][]int{}
+	}
+	if d > 0 {
+		m.qframes[t] = append(m.qframes[t], obj)
+		return obj
+	}
+	st := m.qframes[t]
+	if len(st) == 0 {
+		return 0
+	}
+	o := st[len(st)-1]
+	m.qframes[t] = st[:len(st)-1]
+	return o
+}
+
 func (m *mon) c17() {
 	if !m.props["C17"] {
 		return
 	}
+	m.c17len()
 	accepted := 0
 	for _, s := range m.e.subs {
 		if s.accepted {
@@ -727,6 +818,15 @@ func (m *mon) c17() {
 		}
 		if fc.wPending != sum {
 			m.add("C17", "w-pending-sum", "at rest worker NumPending=%d but the sum over its queues is %d", fc.wPending, sum)
+		}
+		if len(m.e.batches) > 0 {
+			// AddAll does not say which items were accepted: count what the queues took in
+			accepted = 0
+			for _, ev := range m.s.Log {
+				if ev.Kind == "q:enq" && strings.HasPrefix(ev.Val, "1 ") {
+					accepted++
+				}
+			}
 		}
 		if len(m.e.adapters) == 0 && fc.submitted != accepted {
 			m.add("C17", "submitted-inexact", "at rest Submitted=%d, accepted submissions=%d", fc.submitted, accepted)
